@@ -256,6 +256,28 @@ def run(tier):
             lbad += 1; lstats["DISAGREE"] += 1
             ck.violation("type-legality-differs", "type %s at position %s: the compiler says %s, Model/TypeLegal.v says %s" % (tys, posn, rf[:100], lmodel.get(cid)), text)
     ck.log("type legality: %d declarations (depth %d) %s" % (len(lcases), depth, dict(lstats)))
+    # a variable declared WITH an initialiser is judged like one without: every type that is illegal for a variable
+    # (E352 by the model) and legal for a parameter, as `fn foo(p: T) { var x: T = p; }`
+    bytype = collections.defaultdict(dict)
+    for cid, text in lcases:
+        posn, tys, _ = lmeta[cid]
+        bytype[tys][posn] = compare_legal.parse_model(lmodel.get(cid, "<missing>"))
+    vcases = []
+    for tys, d_ in sorted(bytype.items()):
+        pv_ = [v for k_, v in d_.items() if str(k_).startswith("var")]; pp_ = [v for k_, v in d_.items() if "parambody" in str(k_) and "p" not in str(k_).replace("parambody", "").replace("param", "")]
+        if pv_ and pv_[0][0] == "codes" and 352 in pv_[0][1] and any(v == ("codes", []) for k_, v in d_.items() if "param" in str(k_)):
+            vcases.append(("vi%d" % len(vcases), gen_legal.PRELUDE + "fn foo(p: %s) { var x: %s = p; }\n" % (tys, tys), tys))
+    vimpl = C.run_harness("front", [(a, b) for a, b, _ in vcases], ck.work + "/legalinit", timeout=1800)
+    vbad = 0
+    for cid, text, tys in vcases:
+        rf = vimpl.get(cid, ["missing"])[0]
+        r = compare_legal.parse_real(rf)
+        if r[0] != "codes" or not r[1]:          # (another error may stand in for E352 - conflicting types, a copy; ACCEPTING it is the violation)
+            if r[0] == "codes":
+                vbad += 1; lbad += 1
+                ck.violation("type-legality-differs:initialised-variable", "`var x: %s = p;` (p a parameter of that type): the compiler says %s; without the initialiser the type is E352 for a variable" % (tys, rf[:100]), text)
+            else: ck.violation(C.failure_key(rf), "declaring an initialised variable of type %s makes the compiler fail: %s" % (tys, rf[:120]), text)
+    ck.log("initialised variables of types illegal for variables: %d, %d problems" % (len(vcases), vbad))
     mism += lbad
     # words larger than declared (E380): every small word at every declared size
     from . import c10
